@@ -632,7 +632,8 @@ C17_QUICK = {"produce-v8", "produce-v7", "produce-v2", "fetch-v11", "fetch-v10",
 
 def c17_script(tag, kind, api, place, table, cut):
     """one call whose response (or a response it depends on) is cut at byte `cut` (None: probe), then the same call again"""
-    rng = random.Random(hash(tag) & 0xffff)
+    import zlib
+    rng = random.Random(zlib.crc32(tag.encode()))
     ops = Ops()
     # (the discover loop gives its metadata request one TTL to complete: a short TTL on a loaded machine makes the
     # first load fail for reasons that have nothing to do with the scenario)
@@ -655,6 +656,8 @@ def c17_script(tag, kind, api, place, table, cut):
         first = ops.op("deletetopics", k=created["o"])
     else:
         first = mkop(ops, kind, rng, **kw)
+        if kind == "fetch":
+            first["k"] = 0      # from the start of the log: the record set of the response holds several batches
     if fault:
         first["fault"] = fault
     if place.get("wire"):
